@@ -100,7 +100,7 @@ type clientSpec struct {
 	Resume     bool
 }
 
-var names = []string{"example.com", "a.b.c.d.example.org", "xn--bcher-kva.example", "localhost", "", "192.0.2.7", "UPPER.Example.COM",
+var names = []string{"billing_api.internal.example.com", "_dmarc.example.org", strings.Repeat("l", 64) + ".example.com", "example.com", "a.b.c.d.example.org", "xn--bcher-kva.example", "localhost", "", "192.0.2.7", "UPPER.Example.COM",
 	strings.Repeat("a", 63) + "." + strings.Repeat("b", 63) + "." + strings.Repeat("c", 63) + "." + strings.Repeat("d", 57), "x.test"}
 
 func genSpec(t *rapid.T) clientSpec {
